@@ -690,7 +690,26 @@ impl Property for C08 {
     }
 
     fn crosscheck(sc: &Sc, ctx: &mut Ctx, bins: &std::path::Path) -> crate::crosscheck::Xc {
-        crate::crosscheck::find(&sc.find, ctx, bins, CMD)
+        use crate::crosscheck::Xc;
+        let first = crate::crosscheck::find(&sc.find, ctx, bins, CMD);
+        if !matches!(first, Xc::Agree) {
+            return first;
+        }
+        // once more with a reader of find's output that leaves after the first invocation: an
+        // invocation that failed still makes the exit status non-zero, however find ends
+        if sc.find.outcomes.iter().take(2).any(|o| !matches!(o, Outcome::Exit(0))) {
+            match crate::crosscheck::find_real_reader_leaves(&sc.find, ctx, bins, CMD) {
+                Ok(Some((status, failed))) if failed > 0 && status == RunStatus::Exit(0) => {
+                    return Xc::Differs(format!(
+                        "find {:?}: {failed} invocation(s) failed, then the reader of find's standard output went away, and find exited 0",
+                        &sc.find.argv[..sc.find.argv.len().min(14)]
+                    ));
+                }
+                Ok(_) => {}
+                Err(e) => return Xc::Disagree(e),
+            }
+        }
+        Xc::Agree
     }
 
     fn rule() -> &'static str {
